@@ -165,6 +165,8 @@ def plan(rng, tier):
                     g.model.apply(op)
                     base.append(op)
     n = 3 if rng.random() < (0.2 if tier == "quick" else 0.4) else 2
+    if tier != "quick" and rng.random() < 0.15:
+        n = rng.choice([4, 5])
     focus = rng.randrange(64) if rng.random() < 0.4 else None
     txns = [_txn(rng, g, dom.nkeys, dom.nvals, mapping, focus)
             for _ in range(n)]
@@ -178,7 +180,8 @@ def plan(rng, tier):
         # that snapshots several commits old, warm caches invalidated in part
         # and retries after a conflict occur
         rounds = []
-        for _ in range(rng.choice([2, 2, 3, 4])):
+        for _ in range(rng.choice([2, 2, 3, 4] if tier == "quick"
+                                  else [2, 3, 4, 6, 8])):
             acts = []
             for i in range(n):
                 if rng.random() < 0.75:
@@ -197,6 +200,10 @@ def plan(rng, tier):
              "cold": rng.randrange(8) if rng.random() < 0.6 else 0}
     if rounds is not None:
         plan_["rounds"] = rounds
+        # after each of its commits / conflicts the client's OWN tree must
+        # list what is stored now (it then stands on the newest snapshot);
+        # only in half of the plans: listing warms the client's cache
+        plan_["viewcheck"] = rng.random() < 0.5
     return plan_
 
 
@@ -704,6 +711,20 @@ def _long_run(plan, ctx):
                 ctx.probe("matched-" + label)
             S = dict(d)
             hist[st.tid] = dict(S)
+            if plan.get("viewcheck"):
+                try:
+                    own = ops.listing(trees[i], mapping)
+                except Exception as e:
+                    own = repr(e)
+                if not ops.same_value(own, _listing_of(dom, S, mapping)):
+                    raise Violation(
+                        dict(sigbase, what="own-view", after=out.split(
+                            "-")[0] if "conflict" in out else "commit"),
+                        "%s: afterwards the client's own tree lists %r, "
+                        "stored is %r" % (who, own if isinstance(own, str)
+                                          else own[:30],
+                                          _listing_of(dom, S, mapping)[:30]))
+                ctx.probe("own-view-checked")
             # (a conflicting commit aborted and moved the client's snapshot
             # to the current tid, which is in hist as well)
             outcomes.append(out)
